@@ -840,7 +840,22 @@ def r6_select(toks, stats, env="env"):
         if toks[k].s == "biased" and toks[k + 1].s == ";":
             biased = True; k += 2
             stats["R6.biased"] = stats.get("R6.biased", 0) + 1
+        else_body = None
         while k < cb:
+            # `else => BODY`: taken when every branch has been disabled (its refutable pattern did not match what the future completed with)
+            if toks[k].s == "else" and toks[k + 1].s == "=>":
+                k += 2
+                if toks[k].s == "{":
+                    else_body = toks[k:m[k] + 1]; k = m[k] + 1
+                else:
+                    b0 = k
+                    while k < cb and toks[k].s != ",":
+                        if toks[k].k == "o": k = m[k]
+                        k += 1
+                    else_body = toks[b0:k]
+                if k < cb and toks[k].s == ",": k += 1
+                stats["R6.else"] = stats.get("R6.else", 0) + 1
+                continue
             # pattern up to first top-level '='
             p0 = k
             while toks[k].s != "=":
@@ -874,24 +889,38 @@ def r6_select(toks, stats, env="env"):
                     k += 1
                 body = toks[b0:k]
             if k < cb and toks[k].s == ",": k += 1
-            # only irrefutable patterns: identifier or ()
+            # irrefutable patterns (identifier or `()`), or the refutable `Some(identifier)`: a branch whose future completes with something the
+            # pattern does not match is disabled and the select! goes on waiting for the others (tokio's documented meaning)
             ptxt = [x.s for x in patt]
-            if not (ptxt == ["(", ")"] or (len(ptxt) == 1 and patt[0].k == "id" and ptxt[0][0].islower())):
+            refut = len(ptxt) == 4 and ptxt[0] == "Some" and ptxt[1] == "(" and ptxt[3] == ")" and patt[2].k == "id" and ptxt[2][0].islower()
+            if not (refut or ptxt == ["(", ")"] or (len(ptxt) == 1 and patt[0].k == "id" and ptxt[0][0].islower())):
                 raise ExtractError("R6: refutable select! pattern %r is outside the supported subset" % " ".join(ptxt))
-            arms.append((patt, fut, guard, body))
+            if refut: stats["R6.refutable"] = stats.get("R6.refutable", 0) + 1
+            arms.append((patt, fut, guard, body, refut))
         n = len(arms)
         new = [Tok("o", "{", None, 0, True)]
-        for i, (patt, fut, guard, body) in enumerate(arms):
+        for i, (patt, fut, guard, body, refut) in enumerate(arms):
             new += T("let mut vx_f%d =" % i) + fut + T(";")
         new += T("match vx_select%s%d(" % ("_biased" if biased else "", n))
-        for i, (patt, fut, guard, body) in enumerate(arms):
+        for i, (patt, fut, guard, body, refut) in enumerate(arms):
+            br = "vx_f%d.vx_branch()" % i
+            if refut: br = "vx_refutable(" + br + ")"
             if guard is not None:
-                new += T("vx_guard(vx_f%d.vx_branch()," % i) + guard + T("),")
+                new += T("vx_guard(" + br + ",") + guard + T("),")
             else:
-                new += T("vx_f%d.vx_branch()," % i)
+                new += T(br + ",")
         new += T(env + ") {")
-        for i, (patt, fut, guard, body) in enumerate(arms):
-            new += T(("%d" % i if i < n - 1 else "_") + " => { let") + patt + T("= vx_f%d.vx_complete(%s);" % (i, env)) + body + T("}")
+        for i, (patt, fut, guard, body, refut) in enumerate(arms):
+            if refut:
+                # the select stand-in hands out a refutable branch only when its future completes with a value the pattern matches
+                new += T("%d => { match vx_f%d.vx_complete(%s) {" % (i, i, env)) + patt + T("=> {") + body + T("} _ => { vx_select_refuted() } } }")
+            else:
+                new += T("%d => { let" % i) + patt + T("= vx_f%d.vx_complete(%s);" % (i, env)) + body + T("}")
+        # index n: every branch is disabled. tokio runs the else arm, or panics when there is none
+        if else_body is not None:
+            new += T("_ => {") + else_body + T("}")
+        else:
+            new += T("_ => { vx_select_all_disabled() }")
         new += T("} }")
         toks[s:cb + 1] = new
         stats["R6.select"] = stats.get("R6.select", 0) + 1
